@@ -53,7 +53,6 @@ def run (line : String) : String :=
   | [op, p, e, i, rc, s, circ, b, l] =>
     match unhex p, e.toNat?, bool? i, bool? rc, unhex s, bool? circ, b.toInt?, l.toInt? with
     | some p, some e, some i, some rc, some s, some circ, some b, some l =>
-      if circ && s.length < Gen.apatMaxPatLen then "bad-op" else
       match compile p e i with
       | .error _ => "err"
       | .ok P0 =>
